@@ -868,6 +868,12 @@ def docmatrix_case(ctx, env, t, p, reg):
                  "(tolerance %.1e)" % (t, _short(p), dev, tol), case)
 
 
+def _condition_name(e):
+    """icontract's message is 'File ..., line N in ...:\n<condition name>:\n<values>'."""
+    lines = str(e).splitlines()
+    return "post-condition %s broken" % (lines[1].rstrip(":") if len(lines) > 1 else lines[0])[:120]
+
+
 def _short(p):
     return {k: (v if not isinstance(v, dict) else "<matrix>") for k, v in p.items()}
 
@@ -894,7 +900,7 @@ def contract_case(ctx, env, t, p, reg):
             kind = "not-unitary" if t in PASSIVE else "not-symplectic"
             ctx.viol("block-%s:%s" % (kind, t),
                      "%s(%s).%s: %s; P P^+ - A A^+ - 1 = %.3e, P A^T - A P^T = %.3e, |S| = %.3e, tolerance %.1e" % (
-                         t, _short(p), meth, str(e).split(":")[0][:120], last.get("res1", float("nan")), last.get("res2", float("nan")),
+                         t, _short(p), meth, _condition_name(e), last.get("res1", float("nan")), last.get("res2", float("nan")),
                          last.get("norm", float("nan")), last.get("tol", float("nan"))), case)
             break
         except Exception as e:
@@ -929,7 +935,17 @@ def plan(tier, seed):
     for i in range(nid):
         specs.append({"name": "identities-%d" % i, "kind": "identities", "shard": 60 + i, "per_identity": ids,
                       "doc_points": docs, "env": dict(SINGLE_THREAD)})
-    return specs
+    # interleave the kinds: the runner keeps the first sample of the first shards
+    order = {"sweep": 0, "programs": 1, "identities": 2, "subsets": 3}
+    by_kind = {}
+    for sp in specs:
+        by_kind.setdefault(sp["kind"], []).append(sp)
+    out = []
+    while any(by_kind.values()):
+        for k in sorted(by_kind, key=order.get):
+            if by_kind[k]:
+                out.append(by_kind[k].pop(0))
+    return out
 
 
 def all_subset_cases(tier):
@@ -987,8 +1003,8 @@ def run_shard(spec):
             for t in LINEAR:
                 p, reg = gen_params(rng, t)
                 contract_case(ctx, env, t, p, reg)
-                if i == 0 and len(ctx.samples) < 4 and t in ("Squeezing2", "MachZehnder", "ControlledZ", "Beamsplitter"):
-                    ctx.samples.append({"contract": t, "params": p, "residuals": {k: MON.last.get(k) for k in ("res1", "res2", "norm", "tol")} if MON.last else None})
+                if i == 0 and t == LINEAR[(int(spec["shard"]) * 5 + 9) % len(LINEAR)] and MON.last and MON.last.get("cls") == t:
+                    ctx.samples.append({"contract": t, "params": _short(p), "residuals": {k: MON.last.get(k) for k in ("res1", "res2", "norm", "tol")}})
         extra["min_contract_evals_per_gate_class"] = int(min(MON.evals.get(t, 0) for t in LINEAR))
     elif kind == "subsets":
         budget = 300 if tier == "quick" else 1800
@@ -1008,6 +1024,9 @@ def run_shard(spec):
             if ctx.c["gate_steps_compared"] + ctx.c["displacement_steps_compared"] > n0:
                 ctx.c["ordered_subsets_exercised"] += 1
                 ctx.classes.add("subset:%s:d%d:%s" % (t, d, "".join(map(str, modes))))
+                if not ctx.samples and t == "ControlledX" and d == 4 and modes[0] > modes[1]:
+                    ctx.samples.append({"ordered_subset": [t, g["p"], modes], "d": d, "hbar": hbar,
+                                        "max_action_dev_over_tol_so_far": ctx.c["max_action_dev_over_tol"]})
             done += 1
         extra["ordered_subsets_planned"] = len(mine)
     elif kind == "programs":
